@@ -1,9 +1,9 @@
 SPECIFICATION Spec
 CONSTANTS
   EncBytes = {0, 251, 255}
-  EncMax = 7
+  EncMax = 6
   DecBytes = {65, 47, 61, 10, 255}
-  DecMax = 6
+  DecMax = 5
 INVARIANTS EncSized DecSized FmtSized EncLenIsRef DecLenIsRef
 CONSTRAINT Emit
 CHECK_DEADLOCK FALSE
